@@ -20,6 +20,10 @@ RULE = ("Each case = one whole simulated Pynguin run (5 corpus modules: numeric,
         "file is run by pytest in a FRESH interpreter with a different PYTHONHASHSEED, another cwd and the "
         "uninstrumented module. Oracle from the junit report: every test passed or is a strict xfail that failed; no "
         "collection error, NameError or SyntaxError. Faults during the run: injected execution timeouts. "
+        "Diagnosis (changes only the signature of a failure): the suite as it was before generator._minimize is "
+        "exported too; an AssertionError gets the known-finding signature only if the same assertion line is in the "
+        "same test case of that un-minimised file, that test passes under pytest and _minimize removed statements "
+        "from it. "
         "Non-trivial = the file holds >= 2 tests and >= 1 assertion or raises/xfail wrapper; distinct = distinct file hash.")
 ASSUMPTIONS = ["corpus modules are deterministic; the second party differs in hash seed, cwd, import order and "
                "instrumentation only"]
@@ -58,7 +62,7 @@ def gen_case(run_seed: int, tier: str) -> dict:
 
 
 _ASSIGN = re.compile(r"^\s*\w+\s*=\s*(?!=)")
-KNOWN_MINIMIZE = "second-party:failure:AssertionError:minimization-removed-statement-on-asserted-object"
+KNOWN_MINIMIZE = "second-party:failure:AssertionError:assertion-held-before-minimization"
 
 
 def _rhs(code: str) -> str:
@@ -72,51 +76,97 @@ def _entries(t):
 
 
 class MinimizeRecorder(Monitor):
-    """Records what generator._minimize removed from each test case (diagnosis only, no verdicts)."""
+    """Diagnosis only (no verdicts): keeps the suite as it was before generator._minimize and has the real exporter
+    write it too, so that a failing exported assertion can be replayed against the un-minimised test case."""
 
     def __init__(self):
-        self.keep = []      # hold the TestCase objects so that ids stay unique
-        self.before = {}    # id(test_case) -> entries before _minimize
-        self.exported = []  # per exported test function: (id(test_case), entries before export)
+        self.keep = []        # hold the TestCase objects so that ids stay unique
+        self.pre_ids = []     # id(test_case) per test case, suite order before _minimize
+        self.before = {}      # id(test_case) -> entries before _minimize
+        self.pre_clone = None
+        self.pre_file = None  # the un-minimised suite as written by TestSuiteWriter
+        self.exported = []    # per exported test function: (id(test_case), entries before export)
+        self._busy = False
 
     def before_minimize(self, run, suite):
+        self.pre_clone = suite.clone()
         for c in suite.test_case_chromosomes:
             self.keep.append(c.test_case)
+            self.pre_ids.append(id(c.test_case))
             self.before[id(c.test_case)] = _entries(c.test_case)
 
     def before_export(self, run, suite):
+        if self._busy:
+            return
         self.exported = []
         for c in suite.test_case_chromosomes:
             self.keep.append(c.test_case)
             self.exported.append((id(c.test_case), _entries(c.test_case)))
+        if self.pre_clone is None or not any(self.removed_from(k) for k in range(len(self.exported))):
+            return
+        import pynguin.generator as gen
 
-    def removed_reader_of(self, test_index: int, failing_line: str):
-        """Statements of test #test_index that _minimize removed although they read a variable the failing assertion
-        (transitively) depends on - i.e. calls that may have changed the state of an asserted object."""
+        self._busy = True
+        try:
+            gen._export_chromosome(self.pre_clone, sut_uses_random=False,
+                                   subject_properties=run.executor.subject_properties)
+            tf = os.path.join(run.out_dir, f"test_{run.case['module']}.py")
+            with open(tf, "rb") as fh:
+                self.pre_file = fh.read()
+            os.remove(tf)
+            run.probe("unminimised_suite_exported")
+        except Exception:  # noqa: BLE001 - diagnosis unavailable: every failure keeps its generic signature
+            self.pre_file = None
+        finally:
+            self._busy = False
+
+    def removed_from(self, test_index: int) -> list[str]:
+        """Statements generator._minimize removed from the test case exported as test_<test_index>."""
         if not 0 <= test_index < len(self.exported):
             return []
         tid, after = self.exported[test_index]
         pre = self.before.get(tid)
         if pre is None:
             return []
-        left = {}
+        left: dict[str, int] = {}
         for code, _b, _u in after:
             left[_rhs(code)] = left.get(_rhs(code), 0) + 1
         removed = []
-        for code, b, u in pre:
+        for code, _b, _u in pre:
             if left.get(_rhs(code), 0) > 0:
                 left[_rhs(code)] -= 1
             else:
-                removed.append((code, b, u))
-        deps = set(re.findall(r"\bvar_\d+\b", failing_line))
-        grew = bool(deps)
-        while grew:
-            grew = False
-            for _code, b, u in pre:
-                if b in deps and not u <= deps:
-                    deps |= u
-                    grew = True
-        return [code for code, _b, u in removed if u & deps]
+                removed.append(code)
+        return removed
+
+    def held_before_minimization(self, test_index: int, failing_line: str, workdir: str, env: dict, module: str):
+        """(True, removed statements) iff the failing assertion line is part of the same test case in the
+        un-minimised suite, that test PASSES under pytest, and _minimize removed statements from it."""
+        removed = self.removed_from(test_index)
+        if not removed or not self.pre_file or not failing_line:
+            return False, removed
+        tid = self.exported[test_index][0]
+        if tid not in self.pre_ids:
+            return False, removed
+        j = self.pre_ids.index(tid)
+        text = self.pre_file.decode("utf-8", "replace")
+        m = re.search(rf"^def test_{j}\(\):\n((?:    .*\n|\n)*)", text, flags=re.M)
+        if not m or failing_line not in [ln.strip() for ln in m.group(1).splitlines()]:
+            return False, removed
+        d = os.path.join(workdir, "unminimised")
+        os.makedirs(d, exist_ok=True)
+        tf = os.path.join(d, f"test_{module}.py")
+        with open(tf, "wb") as fh:
+            fh.write(self.pre_file)
+        junit = os.path.join(d, "junit.xml")
+        subprocess.run([sys.executable, "-m", "pytest", "-q", "-p", "no:cacheprovider", "-p", "no:randomly",
+                        f"--junitxml={junit}", f"{tf}::test_{j}"], cwd=d, env=env, capture_output=True, text=True,
+                       timeout=300, check=False)
+        if not os.path.exists(junit):
+            return False, removed
+        cases = list(ET.parse(junit).getroot().iter("testcase"))
+        ok = len(cases) == 1 and not any(ch.tag in ("failure", "error", "skipped") for ch in cases[0])
+        return ok, removed
 
 
 def run_case(case: dict) -> dict:
@@ -160,16 +210,21 @@ def run_case(case: dict) -> dict:
                         sig = f"second-party:{ch.tag}:{kind}"
                         note = ""
                         if sig == "second-party:failure:AssertionError":
-                            # diagnosis for known_findings.json: was a statement that reads a variable feeding the
-                            # failing assertion removed by generator._minimize (after the assertion was generated)?
+                            # diagnosis for known_findings.json: does the very same assertion hold in the same test
+                            # case of the un-minimised suite (replayed under pytest), i.e. did _minimize break it?
                             fl = next((ln[1:].strip() for ln in msg.splitlines() if ln.startswith(">")), "")
                             tm = re.fullmatch(r"test_(\d+)", tcase.get("name") or "")
-                            culprits = rec.removed_reader_of(int(tm.group(1)), fl) if tm and fl else []
-                            if culprits:
+                            try:
+                                held, removed = (rec.held_before_minimization(int(tm.group(1)), fl, workdir, env,
+                                                                              case["module"]) if tm else (False, []))
+                            except Exception:  # noqa: BLE001 - no proof, so the failure keeps its generic signature
+                                held, removed = False, []
+                            if held:
                                 sig = KNOWN_MINIMIZE
-                                note = (f"failing assertion `{fl}` was generated before generator._minimize, which then "
-                                        f"removed {culprits!r} from this test case\n")
-                        if violation is None:
+                                note = (f"`{fl}` is in the same test case of the un-minimised suite, which PASSES under "
+                                        f"pytest; generator._minimize then removed {removed!r} from it\n")
+                        # a failure without a proven known cause must never hide behind one that has it
+                        if violation is None or (violation["signature"] == KNOWN_MINIMIZE and sig != KNOWN_MINIMIZE):
                             violation = {"signature": sig,
                                          "message": f"{tcase.get('name')} {ch.tag}: {note}{msg[-1200:]}\n--- file ---\n{text[-2500:]}"}
                     elif "skipped" in kinds:
